@@ -14,8 +14,9 @@ Hypothesis Hid : forall n, P (TIdent n).
 Hypothesis Hnum : forall s, P (TNum s).
 Hypothesis Hcom : forall x, P (TLineCom x).
 Hypothesis Hstr : forall s, P (pstr (style0 c) s).
+Hypothesis Hbrk : forall n b, P (TStr QBrackets n b).
 Notation pexp := (Fmt0.pexp c).
-Ltac fa := repeat first [ apply Forall_nil | apply Forall_cons; [first [apply Hsym | apply Hws | apply Hid | apply Hnum | apply Hcom | apply Hstr]|] | apply Forall_app; split ].
+Ltac fa := repeat first [ apply Forall_nil | apply Forall_cons; [first [apply Hsym | apply Hws | apply Hid | apply Hnum | apply Hcom | apply Hstr | apply Hbrk]|] | apply Forall_app; split ].
 Lemma all_commas l : Forall (Forall P) l -> Forall P (commas l).
 Proof.
   induction 1 as [|x r Hx Hr IH]; [constructor|]. destruct r as [|y r']; [cbn [commas]; exact Hx|].
